@@ -1568,6 +1568,27 @@ class Interp:
                      ast.Gt: (">", False), ast.LtE: (">", True)}[type(op)]
             return Unknown(f"({_sym(a)} {canon[0]} {_sym(b)})", canon[1])
         if isinstance(a, Unknown) or isinstance(b, Unknown):
+            # `max(x, c)` is at least c and `min(x, c)` at most c: comparisons that this alone decides are decided
+            bnd = getattr(self, "_bounds", {})
+            for u_, c_, flip in ((a, b, False), (b, a, True)):
+                if isinstance(u_, Unknown) and not isinstance(c_, Unknown) and u_.sym in bnd and isinstance(op, (ast.Lt, ast.LtE, ast.Gt, ast.GtE)):
+                    lo_, hi_ = bnd[u_.sym]
+                    kind_ = type(op)
+                    if flip:
+                        kind_ = {ast.Lt: ast.Gt, ast.Gt: ast.Lt, ast.LtE: ast.GtE, ast.GtE: ast.LtE}[kind_]       # c REL u  ==  u REL' c
+                    try:
+                        if lo_ is not None:
+                            if kind_ is ast.Gt and lo_ > c_ or kind_ is ast.GtE and lo_ >= c_:
+                                return True
+                            if kind_ is ast.Lt and lo_ >= c_ or kind_ is ast.LtE and lo_ > c_:
+                                return False
+                        if hi_ is not None:
+                            if kind_ is ast.Lt and hi_ < c_ or kind_ is ast.LtE and hi_ <= c_:
+                                return True
+                            if kind_ is ast.Gt and hi_ <= c_ or kind_ is ast.GtE and hi_ < c_:
+                                return False
+                    except TypeError:
+                        pass
             sa = a.sym if isinstance(a, Unknown) else repr(a)
             sb = b.sym if isinstance(b, Unknown) else repr(b)
             if isinstance(a, Unknown) and isinstance(b, Unknown) and a == b and isinstance(op, (ast.Eq, ast.LtE, ast.GtE)):
@@ -2229,7 +2250,16 @@ class Interp:
                 if name == "sum" and len(args) > 1:
                     items = self.iterate(args[0])
                 if any(isinstance(x, Unknown) for x in items):
-                    return Unknown(f"{name}({', '.join(x.sym if isinstance(x, Unknown) else repr(x) for x in items)})")
+                    u_ = Unknown(f"{name}({', '.join(x.sym if isinstance(x, Unknown) else repr(x) for x in items)})")
+                    conc = [x for x in items if not isinstance(x, Unknown) and not _opaque(x)]
+                    if name in ("min", "max") and conc:
+                        try:
+                            if not hasattr(self, "_bounds"):
+                                self._bounds = {}
+                            self._bounds[u_.sym] = (max(conc), None) if name == "max" else (None, min(conc))
+                        except TypeError:
+                            pass
+                    return u_
                 if any(_opaque(x) for x in items):
                     return self.fresh(name)
                 try:
@@ -2968,6 +2998,28 @@ def cmp_outcome(decision, a_needle, b_needle):
         if idx < 0:
             continue
         x, y = body[:idx], body[idx + len(op):]
+
+        def _zero(t):
+            return t.strip() in ("0", "0.0", "timedelta(0)", "datetime.timedelta(0)", "timedelta()", "datetime.timedelta()", "timedelta(seconds=0)")
+
+        def _split_sub(t):
+            t = t.strip()
+            if not (t.startswith("(") and t.endswith(")")):
+                return None
+            inner, d_, cut = t[1:-1], 0, -1
+            for i_, ch_ in enumerate(inner):
+                if ch_ == "(":
+                    d_ += 1
+                elif ch_ == ")":
+                    d_ -= 1
+                elif d_ == 0 and inner.startswith(" Sub ", i_):
+                    cut = i_
+            return (inner[:cut], inner[cut + 5:]) if cut >= 0 else None
+        # `limit - elapsed  REL  0` is `limit REL elapsed` (a remaining-time helper compared with zero)
+        if _zero(y) and _split_sub(x):
+            x, y = _split_sub(x)
+        elif _zero(x) and _split_sub(y):
+            y, x = _split_sub(y)
         if a_needle in x and b_needle in y and not (a_needle in y and b_needle in x):
             rel = "lt" if op == " < " else "gt"
         elif a_needle in y and b_needle in x:
